@@ -40,6 +40,13 @@ func scenC03(r *Run, job *Job) {
 		site := []string{"createExitedChannel<lambda/rapid.doInitExtensions", "CreateExternalAgent<lambda/rapid.doInitExtensions"}[t.Draw(2)]
 		r.AddHold(site, 2+t.Draw(nExternal-1), 1+t.Draw(4))
 	}
+	// the end of the registration phase: the init goroutine is descheduled around "count the agents / close the
+	// registration" (or a registration inside the registration service) while a late internal extension registers
+	closeRace := t.Chance(1, 4)
+	if closeRace {
+		site := []string{"GetRegisteredAgentsSize<lambda/rapid.doRuntimeDomainInit", "TurnOff<lambda/rapid.doRuntimeDomainInit", "registrationServiceImpl).CreateInternalAgent<", "SetAgentsReadyCount<lambda/rapid.doRuntimeDomainInit"}[t.Draw(4)]
+		r.AddHold(site, 1, 1+t.Draw(3))
+	}
 	w := r.NewWorld(cfg, job.Seed)
 	e := w.NewEngine()
 	e.Bound = 700 * time.Second
@@ -62,6 +69,9 @@ func scenC03(r *Run, job *Job) {
 	var lateDelay time.Duration
 	if late {
 		lateDelay = DrawStall(t, 290*time.Second)
+	}
+	if closeRace {
+		late, lateDelay = true, 0
 	}
 	nInv := 1 + t.Draw(2)
 	for i := 0; i < nInv; i++ {
@@ -86,14 +96,22 @@ func scenC03(r *Run, job *Job) {
 				}
 			}
 			if late {
-				b.Internals = append(b.Internals, InternalSpec{Name: "late", Subs: []string{"INVOKE"},
-					B: &Behav{ThenHealthy: true, Subs: []string{"INVOKE"}, Stalls: map[int]time.Duration{0: lateDelay}}})
+				lb := &Behav{ThenHealthy: true, Subs: []string{"INVOKE"}, Stalls: map[int]time.Duration{0: lateDelay}}
+				if closeRace {
+					// registers while the hold is on (if the hold never fires: when the runtime has polled)
+					lb.Stalls = nil
+					lb.GateFirst = func() bool {
+						rt := rtActor(e, 1)
+						return r.HeldNow() || (rt != nil && rt.FirstPoll > 0 && r.Step > rt.FirstPoll+2)
+					}
+				}
+				b.Internals = append(b.Internals, InternalSpec{Name: "late", Subs: []string{"INVOKE"}, B: lb})
 			}
 		} else if idx(p.ExtName) == stallParty {
 			b.Stalls = map[int]time.Duration{stallAt: stallDur}
 		}
 	})
-	r.Desc = fmt.Sprintf("C03 exts=%v dirs=%v inv=%d stallParty=%d at=%d dur=%s late=%v/%s reorder=%d/%d perm=%d/%d", exts, dirs, nInv, stallParty, stallAt, stallDur, late, lateDelay, r.ReorderNum, r.ReorderDen, e.PermNum, e.PermDen)
+	r.Desc = fmt.Sprintf("C03 exts=%v dirs=%v inv=%d stallParty=%d at=%d dur=%s late=%v/%s closeRace=%v reorder=%d/%d perm=%d/%d", exts, dirs, nInv, stallParty, stallAt, stallDur, late, lateDelay, closeRace, r.ReorderNum, r.ReorderDen, e.PermNum, e.PermDen)
 	r.Logf("%s", r.Desc)
 	e.OnQuiescent = func() { c03Step(r, w, e, exts) }
 	e.Stuck = func() {
